@@ -1,0 +1,27 @@
+//go:build verif
+
+package engine
+
+// Contracts for govc (see /verif/DESIGN.md, C13). Comment-only; compiled only with -tags verif.
+// ProofRW / QualityRW: the closed flag and the channel change together under one mutex, so the channel is closed at
+// most once and nothing is sent on it after it was closed.
+
+//@ type ProofRW lock l invariant this.ch != nil && this.closed == closed[this.ch] havocs closed, ProofRW.closed
+//@ type ProofRW protects closed reads held[addr(this.l)] writes held[addr(this.l)]
+//@ func (*ProofRW).Write
+//@   attr lockinv
+//@   requires lock-entry: prw != nil && !held[addr(prw.l)]
+//@   assert-at send never-on-a-closed-channel: !closed[chan]
+//@ func (*ProofRW).Close
+//@   attr lockinv
+//@   requires lock-entry: prw != nil && !held[addr(prw.l)]
+
+//@ type QualityRW lock l invariant this.ch != nil && this.closed == closed[this.ch] havocs closed, QualityRW.closed
+//@ type QualityRW protects closed reads held[addr(this.l)] writes held[addr(this.l)]
+//@ func (*QualityRW).Write
+//@   attr lockinv
+//@   requires lock-entry: qrw != nil && !held[addr(qrw.l)]
+//@   assert-at send never-on-a-closed-channel: !closed[chan]
+//@ func (*QualityRW).Close
+//@   attr lockinv
+//@   requires lock-entry: qrw != nil && !held[addr(qrw.l)]
